@@ -59,19 +59,25 @@ func c07ids(c *ctx, links []string) {
 }
 
 // every configuration written along a history (long-lived pipeline) and by a fresh controller must lint clean
-func c07hist(c *ctx, ops []string) {
+func c07hist(c *ctx, toks []string) {
+	ops := toks
 	out := func() (res string) {
 		defer func() {
 			if r := recover(); r != nil {
 				res = "panic:" + sanitize(fmt.Sprint(r))
 			}
 		}()
+		// pseudo ops `opt~shards=N` (--backend-shards), `opt~db=...` configure the long-lived and the fresh pipeline
+		opt, ops := syncOptions(ops)
 		w := world.NewWorld()
-		p, err := world.NewPipeline(w, world.DefaultOptions())
+		p, err := world.NewPipeline(w, opt)
 		if err != nil {
 			return "skip:" + sanitize(err.Error())
 		}
 		defer p.Close()
+		if opt.Shards > 0 {
+			c.stat("hist_with_shards", 1)
+		}
 		probs := map[string]bool{}
 		lint := func(pp *world.Pipeline) {
 			cfg, err := world.LoadConfig(pp.CfgDir)
@@ -102,7 +108,7 @@ func c07hist(c *ctx, ops []string) {
 			}
 			p.Deliver(evs)
 		}
-		f, err := world.NewPipeline(w, world.DefaultOptions())
+		f, err := world.NewPipeline(w, opt)
 		if err == nil {
 			f.Startup()
 			if _, err := f.Reconcile(); err != nil {
@@ -122,7 +128,7 @@ func c07hist(c *ctx, ops []string) {
 		sort.Strings(ks)
 		return strings.Join(ks, ",")
 	}()
-	c.emit("C07", "hist "+strings.Join(ops, " "), out)
+	c.emit("C07", "hist "+strings.Join(toks, " "), out)
 }
 
 // auth-proxy port allocation on the real hatypes.Frontend (same sub-protocol as C18's allocator cases)
@@ -218,9 +224,32 @@ func runC07(c *ctx) {
 	c07hist(c, strings.Fields("svc+d/app!http:80:8080!- ep~d/app!10.0.1.1:r:app-1 svc+d/api!http:80:8080!- ep~d/api!10.0.2.1:r:api-1 "+
 		"ing+d/i1@1!haproxy,-!ssl-passthrough=true!a.local>/:Prefix:app:80!-!- sync ep~d/app!10.0.1.1:r:app-1+10.0.1.2:r:app-2 sync "+
 		"ing+d/i2@2!haproxy,-!-!b.local>/:Prefix:api:80!-!- sync"))
+	// de67e1a strict-host: a host without root path borrows the one of the default host; when the ingress of the
+	// default host goes, the host map must not keep naming the removed backend
+	c07hist(c, strings.Fields("svc+e/web!http:80:8080+adm:81:adm!- cm~strict-host=true;external-has-lua=true cls+hap:haproxy-ingress.github.io/controller "+
+		"ing~e/i1@1!-,hap!maxconn-server=10;oauth=oauth2_proxy!_>/b:Prefix:app:80+/:Exact:web:http!-!- "+
+		"ing~d/i3@1!haproxy,-!allowlist-source-range=10.0.0.0/8;balance-algorithm=leastconn!c.local>/:Exact:app:80!-!- sync "+
+		"ing~e/i1@1!other,-!app-root=/home;ssl-passthrough=true;ssl-passthrough-http-port=80!-!-!- sync"))
+	// --backend-shards: a backend re-parsed unchanged (endpoints re-notification) in the same batch as the addition /
+	// removal of another backend; with three services per namespace most batches put two backends into one of the
+	// shard files, dynamic scaling off so that alignSlots does not flag the shard anyway (seed C07e)
+	for _, sh := range []string{"1", "2", "3"} {
+		c07hist(c, strings.Fields("opt~shards="+sh+" cm~dynamic-scaling=false svc+d/app!http:80:8080!- ep~d/app!10.0.1.1:r:app-1 svc+d/api!http:80:8080!- ep~d/api!10.0.2.1:r:api-1 "+
+			"svc+d/web!http:80:8080!- ep~d/web!10.0.3.1:r:web-1 sec+d/pw1!passwd!1!a.local "+
+			"ing+d/i1@1!haproxy,-!-!a.local>/:Prefix:app:80!-!- ing+d/i2@2!haproxy,-!auth-secret=pw1!b.local>/:Prefix:api:80!-!- sync "+
+			"ep~d/app!10.0.1.1:r:app-1 ing+d/i3@3!haproxy,-!-!c.local>/:Prefix:web:80!-!- sync "+
+			"ep~d/app!10.0.1.1:r:app-1 ep~d/web!10.0.3.1:r:web-1 ing-d/i2 sec-d/pw1 sync"))
+	}
 	for i := 0; i < n; i++ {
 		g := world.NewGen(r.Fork(), cfg)
 		ops := g.History()
+		if i%3 == 2 {
+			pre := []string{"opt~shards=" + gen.Pick(r, []string{"1", "2", "3", "5"})}
+			if r.Chance(1, 2) {
+				pre = append(pre, "cm~dynamic-scaling=false")
+			}
+			ops = append(pre, ops...)
+		}
 		// more endpoint churn (scale in / out) between the batches
 		var out []string
 		for _, o := range ops {
